@@ -3327,11 +3327,24 @@ fn analyze_type(
 		{
 			typer.put_symbol(&named_length, Some(Ok(ValueType::Usize)))?;
 			let element_type = analyze_type(*element_type, typer)?;
+			let location = named_length.location.clone();
 			let length = typer.retrieve_named_length(named_length)?;
-			Ok(ValueType::Array {
+			let value_type = ValueType::Array {
 				element_type: Box::new(element_type),
 				length,
-			})
+			};
+			if value_type.is_wellformed()
+			{
+				Ok(value_type)
+			}
+			else
+			{
+				// The value of the constant is too large to be a length.
+				Err(Poison::Error(Error::IllegalType {
+					value_type,
+					location,
+				}))
+			}
 		}
 		ValueType::Slice { element_type } =>
 		{
